@@ -108,8 +108,9 @@ func Struct(src interface{}, o Opts) Result {
 		}
 	case reflect.Map:
 		w.res.Unordered = v.Len() > 1
-		for _, k := range v.MapKeys() {
-			w.validate("map["+toStr(k)+"]", v.MapIndex(k), true, false)
+		for it := v.MapRange(); it.Next(); { // entries, not key look-ups: a NaN key cannot be found again
+			k := it.Key()
+			w.validate("map["+toStr(k)+"]", it.Value(), true, false)
 		}
 	default:
 		w.validate("", v, false, true)
@@ -344,8 +345,9 @@ func (w *walker) exist(isExistRule bool, obj, field, msg string, tv reflect.Valu
 		if tv.Len() > 1 {
 			w.res.Unordered = true
 		}
-		for _, k := range tv.MapKeys() {
-			w.validate(obj+"."+field+"["+toStr(k)+"]", tv.MapIndex(k), true, false)
+		for it := tv.MapRange(); it.Next(); {
+			k := it.Key()
+			w.validate(obj+"."+field+"["+toStr(k)+"]", it.Value(), true, false)
 		}
 	default:
 		if isExistRule {
